@@ -10,7 +10,7 @@
    AsyncSubject, histories of top-level calls). *)
 From RxVerif Require Import Base.Prelude Ops.Machine Subjects.Subject Subjects.Behavior Subjects.Async
   Subjects.Family Subjects.Replay Subjects.Connectable Subjects.ConnectableFacts Subjects.ConnectableViewFacts
-  Subjects.ConnectableCountFacts.
+  Subjects.ConnectableCountFacts Subjects.ConnectableDiscFacts.
 
 (* ---- 1. the connection.  For EVERY subject engine, every mode (plain connectable, ref_count,
         auto_connect), every cold prefix, every call tree (subscribers that subscribe, unsubscribe,
@@ -49,6 +49,53 @@ Theorem C24_open_subscription_is_the_latest_connection :
     blen (k_bk c) = S cid /\ src_state (src_log (klog_of c)) = Some (Some cid).
 Proof. exact (@open_subscription_is_the_latest_connection). Qed.
 Print Assumptions C24_open_subscription_is_the_latest_connection.
+
+(* disposing the handle returned by connect() RELEASES the source: in every configuration reached
+   on any call tree, when the driver (or a subscriber from inside a callback) disposes the j-th
+   connect() result and that connection has not been disposed yet, the step leaves the connectable
+   disconnected, the source's log closed (no open subscription), and logs exactly the operation
+   followed by the source's unsubscription if that subscription was still alive (nothing if the
+   source had already ended it) *)
+Theorem C24_disconnect_releases_the_source :
+  forall (A E_st E_in E_op : Type) (e_exec : E_in -> E_st -> E_st * list E_in * list sev)
+         (e_call : sop -> list E_in) (md : mode) (reach : bool) (cold : list (ev A))
+         (react : nat -> nat -> list cop) (e_drain : list E_in) (st0 : E_st) (top : list cop)
+         (fuel j : nat) (k : list kinstr) (cid : nat),
+    let c := krun e_exec e_call md reach cold react fuel (kinit (E_op := E_op) e_drain md st0 top) in
+    k_k c = KOp (CDisc j) :: k ->
+    nth_error (handles (k_bk c)) j = Some (Some cid) ->
+    comp_disposed (get_conn (k_bk c) cid) = false ->
+    has_sub (k_bk (kstep e_exec e_call md reach cold react c)) = false /\
+    src_state (src_log (klog_of (kstep e_exec e_call md reach cold react c))) = Some None /\
+    klog_of (kstep e_exec e_call md reach cold react c) =
+      klog_of c ++ CEOp (CDisc j) :: (if s_live (get_conn (k_bk c) cid) then [CESUnsub cid] else []).
+Proof. exact (@disconnect_releases). Qed.
+Print Assumptions C24_disconnect_releases_the_source.
+
+(* ... and a handle whose connection is already over is inert: it does not touch the book (in
+   particular not the current connection) and logs nothing but the operation *)
+Theorem C24_stale_handle_is_inert :
+  forall (A E_st E_in E_op : Type) (e_exec : E_in -> E_st -> E_st * list E_in * list sev)
+         (e_call : sop -> list E_in) (md : mode) (reach : bool) (cold : list (ev A))
+         (react : nat -> nat -> list cop) (c : @kcfg A E_st E_in E_op) (j : nat) (k : list kinstr) (cid : nat),
+    k_k c = KOp (CDisc j) :: k ->
+    nth_error (handles (k_bk c)) j = Some (Some cid) ->
+    comp_disposed (get_conn (k_bk c) cid) = true ->
+    k_bk (kstep e_exec e_call md reach cold react c) = k_bk c /\
+    klog_of (kstep e_exec e_call md reach cold react c) = klog_of c ++ [CEOp (CDisc j)].
+Proof. exact (@stale_handle_is_inert). Qed.
+Print Assumptions C24_stale_handle_is_inert.
+
+(* the hypotheses of C24_disconnect_releases_the_source hold in a reachable configuration in which
+   the source subscription is open *)
+Example C24_witness_disconnect_hyp :
+  let c := krun (sync_exec (cls_of 0 KSubject)) sync_call MPlain true [] (fun _ _ => []) 11
+             (kinit [] MPlain (sync_init 0) [CSub 0%nat; CConnect; CNext 5; CDisc 0%nat; CNext 6]) in
+  k_k c = [KOp (CDisc 0%nat); KOp (CNext 6)] /\
+  nth_error (handles (k_bk c)) 0 = Some (Some 0%nat) /\
+  comp_disposed (get_conn (k_bk c) 0) = false /\ s_live (get_conn (k_bk c) 0) = true /\
+  src_state (src_log (klog_of c)) = Some (Some 0%nat).
+Proof. vm_compute. repeat split; reflexivity. Qed.
 
 (* connect() while connected subscribes nothing: the caller just gets the current disposable *)
 Theorem C24_second_connect_does_not_subscribe :
